@@ -18,8 +18,19 @@ package stubs
 //@   params d
 //@   ensures result == dbSafeG(refOf(d))
 
+// reads are counted (`dbgets`), writes are counted (`dbputs`), and every read or
+// write that reports an error is counted by `stfault`: any of them may fail
 //@ iface (db.Db).Get
 //@   params d, ctx, key
+//@   modifies count(dbgets), count(stfault)
+//@   ensures count(dbgets) == old(count(dbgets)) + 1
+//@   ensures count(stfault) == old(count(stfault)) + ite(result1 != nil, 1, 0)
+
+//@ iface (db.Db).Put
+//@   params d, ctx, key, val
+//@   modifies count(dbputs), count(stfault)
+//@   ensures count(dbputs) == old(count(dbputs)) + 1
+//@   ensures count(stfault) == old(count(stfault)) + ite(result != nil, 1, 0)
 
 //@ iface (db.Db).Close
 //@   params d, ctx
